@@ -18,7 +18,7 @@ func init() {
 	core.Register(&core.Check{
 		ID:    "C09",
 		Level: "model_checking",
-		Rule: "all object literals of <=4 (thorough 5) pairs over names {a,b,_p,_q} with <=2 `**` objects, and all map literals of <=4 (thorough 5) pairs over 14 key kinds plus `**map`/`**obj` combinations; " +
+		Rule: "all object literals of <=4 (thorough 5) pairs over names {a,b,_p,_q} with <=2 `**` objects, all literals of 2..3 (thorough 4) distinct names out of 12 that differ only by a suffix, a digit or case (a, a!, a?, a_, a1, aa, Ab, b, _p, _p!, _p1, _Pq; listed order incl. after ** into an object or a map), and all map literals of <=4 (thorough 5) pairs over 14 key kinds plus `**map`/`**obj` combinations; " +
 			"every accessor (keys/values/items with and without private?, A, iteration, S, ==, indexing by every key, len) is evaluated by the real interpreter and compared with an ordered-dictionary model; " +
 			"non-trivial = literal with a duplicate, a private name, an embedded container or a non-scalar key; distinct = distinct literal text",
 		Assumptions: []string{
@@ -181,6 +181,46 @@ func genObjs(maxPairs int, emit func(tcase)) {
 		}
 	}
 	rec(nil)
+}
+
+// ---------------------------------------------------------------- listed order of names
+
+// names that differ only by a suffix / case / a digit: the listed order is the plain order of the names
+var orderNames = []string{"a", "a!", "a?", "a_", "a1", "aa", "Ab", "b", "_p", "_p!", "_p1", "_Pq"}
+
+func genObjNames(maxPairs int, emit func(tcase)) {
+	var rec func(pairs [][2]string)
+	rec = func(pairs [][2]string) {
+		if len(pairs) >= 2 {
+			lit := make([]string, len(pairs))
+			for i, p := range pairs {
+				lit[i] = p[0] + ": " + p[1]
+			}
+			emit(tcase{Kind: "objnames", Src: "{" + strings.Join(lit, ", ") + "}", Pairs: pairs})
+		}
+		if len(pairs) == maxPairs {
+			return
+		}
+	next:
+		for _, n := range orderNames {
+			for _, p := range pairs {
+				if p[0] == n {
+					continue next
+				}
+			}
+			rec(append(append([][2]string{}, pairs...), [2]string{n, fmt.Sprint(len(pairs) + 1)}))
+		}
+	}
+	rec(nil)
+}
+
+func objNamesBody(t tcase) string {
+	return fmt.Sprintf("o := %s\n[o.keys, o.keys(private?: true), o.values, o.values(private?: true), o.items, o.items(private?: true), o.A, o@{|k, v| [k, v]}, %%{**o}.keys, {**o}.keys]", t.Src)
+}
+
+func objNamesExpect(t tcase) []string {
+	e := objExpect(t)
+	return []string{e[0], e[1], e[2], e[3], e[4], e[5], e[6], e[7], e[1], e[0]}
 }
 
 // ---------------------------------------------------------------- maps
@@ -489,6 +529,15 @@ func judge(c *core.Ctx, t tcase, o panrun.Obs) {
 		judgeSeq(c, t, o)
 		return
 	}
+	if t.Kind == "objnames" {
+		for i, e := range objNamesExpect(t) {
+			if got := a.Elems[i].Inspect(); got != e {
+				viol("listed-order/"+[]string{"keys", "keys-private", "values", "values-private", "items", "items-private", "A", "iteration", "map-unpack-keys", "obj-unpack-keys"}[i], e, got)
+				return
+			}
+		}
+		return
+	}
 	if t.Kind == "obj" {
 		exp := objExpect(t)
 		for i, e := range exp {
@@ -571,7 +620,11 @@ func run(c *core.Ctx) {
 		genObjs(maxP, emit)
 		genMaps(maxP, emit)
 		genSeqs(emit)
+		genObjNames(c.Pick(3, 4), emit)
 	}, func(t tcase) string {
+		if t.Kind == "objnames" {
+			return objNamesBody(t)
+		}
 		if t.Kind == "objseq" || t.Kind == "mapseq" {
 			return seqBody(t)
 		}
@@ -601,6 +654,9 @@ func replay(c *core.Ctx, raw json.RawMessage) {
 	}
 	if t.Kind == "objseq" || t.Kind == "mapseq" {
 		body = seqBody(t)
+	}
+	if t.Kind == "objnames" {
+		body = objNamesBody(t)
 	}
 	obs := c.R().Thunks("", []string{body}, "")
 	c.Eval(1)
